@@ -65,8 +65,14 @@ func bigObjectTail(tag int) []byte {
 
 func bigVecLen(tag int) int { return 1500 + (tag%7)*997 }
 
+// emptyVector: one vector answer in eleven has no items at all (a contact list of nobody)
+func emptyVector(tag int) bool { return tag%11 == 0 && !bigResult(tag) }
+
 func Expected(r ReqSpec) string {
 	t := int64(r.Tag)
+	if emptyVector(r.Tag) && strings.HasPrefix(r.Kind, "vec") {
+		return r.Kind + ":[]"
+	}
 	switch r.Kind {
 	case "object":
 		if bigResult(r.Tag) {
@@ -170,6 +176,9 @@ func parseTagged(body []byte) (tag int, kind string, ok bool) {
 func resultBody(kind string, tag int) []byte {
 	w := &refsrv.W{}
 	t := int64(tag)
+	if emptyVector(tag) && strings.HasPrefix(kind, "vec") {
+		return w.U32(refsrv.IDVector).U32(0).B
+	}
 	switch kind {
 	case "object":
 		if bigResult(tag) {
